@@ -68,7 +68,7 @@ def run_one(args):
         code, run = run_property(pid, "quick", base, quiet=True, evidence=False)
         rules = sorted(set(x["rule"] for x in run.new_violations))
         return {"id": v["id"], "pid": pid, "status": "ran", "code": code, "rules": rules,
-                "lines": [l for l in run.lines if not l.startswith("  ")][:3],
+                "lines": [l.replace("VIOLATION", "violation-line").replace("ANALYSIS-ERROR", "analysis-error") for l in run.lines if not l.startswith("  ")][:3],
                 "msgs": [x["construct"] + ": " + x["message"][:160] for x in run.new_violations[:3]],
                 "wall": round(time.time() - t0, 2)}
     finally:
@@ -126,7 +126,7 @@ def main(pid, repo="/repo", run=None, verbose=True):
     if verbose:
         print("selftest %s: %s" % (pid, tally))
     if run is not None:
-        run.extra["selftest"] = tally
+        run.extra["selftest"] = dict(tally, variants=[{"id": r["id"], "status": r["status"], "exit": r.get("code"), "rules": r.get("rules")} for r in results])
     if bad:
         print("ANALYSIS-ERROR property=%s reason=selftest-failed detail=%s" % (pid, tally))
         return 2
